@@ -15,6 +15,10 @@ type SelOpts struct {
 	Limit     bool // may add LIMIT
 	Exotic    bool // constructs outside the reference evaluator (differential checks only)
 	MinFields int
+	// MixedNumeric lets aggregates take `value` of a store that mixes integer
+	// and float texts, so sum/min/max are integers in some groups and floats
+	// in others (no reference value; metamorphic / differential checks only)
+	MixedNumeric bool
 }
 
 var aliasPrefix = map[Ty]string{
@@ -110,7 +114,7 @@ var fieldTypes = []Ty{TyText, TyInt, TyFloat, TyBool, TyListText, TyListInt}
 // GenSelect draws a SELECT statement whose meaning the reference evaluator
 // defines (unless o.Exotic).
 func GenSelect(t *rapid.T, kind StoreKind, pairs []Pair, o SelOpts) *Stmt {
-	c := &GenCtx{Kind: kind, Pairs: pairs, Exotic: o.Exotic}
+	c := &GenCtx{Kind: kind, Pairs: pairs, Exotic: o.Exotic, MixedNumeric: o.MixedNumeric}
 	if o.Aliases {
 		c.RefBias = 35
 		if o.Exotic {
@@ -289,6 +293,9 @@ func genAggregateSelect(t *rapid.T, c *GenCtx, st *Stmt, o SelOpts) {
 }
 
 func aggrArg(t *rapid.T, c *GenCtx) *Node {
+	if c.MixedNumeric && c.Kind == KFloat && rapid.IntRange(0, 2).Draw(t, "mixedAggrArg") != 0 {
+		return Value() // numeric text: integers and floats mixed
+	}
 	switch rapid.IntRange(0, 4).Draw(t, "aggrArg") {
 	case 0:
 		return Call("strlen", Key())
